@@ -12,7 +12,7 @@ theorem placeNameSO_inv {s s' : State} {a n mn sl} (hI : Inv s) (h : placeNameSO
   injection h with h; subst h
   refine { wfN := noDup_set _ _ _ hI.wfN, wfA := hI.wfA, wfB := hI.wfB, esc := ?_, idx := hI.idx, ali := hI.ali,
            so := ?_, boK := hI.boK }
-  · have := sum_setNameSO s n { expireAt := s.now + s.p.soDur, minPrice := mn, sellPrice := sl, bid := none }
+  · have := sum_setNameSO s n { seller := a, expireAt := s.now + s.p.soDur, minPrice := mn, sellPrice := sl, bid := none }
     have e := hI.esc
     simp only [escrowed_def, nameBid, hso, Option.bind, bidAmt] at this e ⊢
     omega
@@ -20,7 +20,7 @@ theorem placeNameSO_inv {s s' : State} {a n mn sl} (hI : Inv s) (h : placeNameSO
     simp only [AMap.get_set] at hm
     split at hm
     · rename_i hmn; subst hmn; injection hm with hm; subst hm
-      exact ⟨_, ‹getName s m = some _›, by simp only []; omega⟩
+      exact ⟨_, ‹getName s m = some _›, by simp only []; omega, by simp only []; exact (‹DymName.owner _ = a›).symm⟩
     · exact hI.so m so hm
 
 /-- remove the sell order of a name, refunding its bid (if any) -/
